@@ -25,6 +25,7 @@ struct Verdict
 	uint64_t io_steps = 0, api_calls = 0, execs = 0 ;
 	int64_t clock_span = 0 ;
 	J extra ;											// e.g. fault points for enumeration profiles
+	std::vector<uint64_t> parts ;						// per execution: trace, transcript, store hashes (debugging the determinism gate)
 	void absorb (const Result &r) ;
 } ;
 
